@@ -74,9 +74,15 @@ def result_node(kind, _id):
     return _set_id(kind["res"](_id), _id)
 
 
+ERROR_VARIANTS = [(404, "item-not-found", None), (401, "not-authorized", None), (406, "not-acceptable", 3600), (500, "internal-server-error", 0),
+                  (503, "service-unavailable", 10), (429, "rate-overlimit", 86400), (400, "bad-request", None)]
+
+
 def error_node(_id):
+    """an error reply; the error itself (code, text, back-off) varies with the id so that the streams see several kinds"""
     from yowsup.layers.protocol_iq.protocolentities import ErrorIqProtocolEntity
-    return ErrorIqProtocolEntity(_id, "s.whatsapp.net", 404, "item-not-found").toProtocolTreeNode()
+    code, text, backoff = ERROR_VARIANTS[sum(bytearray(str(_id).encode())) % len(ERROR_VARIANTS)]
+    return ErrorIqProtocolEntity(_id, "s.whatsapp.net", code, text, backoff).toProtocolTreeNode()
 
 
 LAYER_IDS = {"YowIqProtocolLayer": 16, "YowPresenceProtocolLayer": 14, "YowProfilesProtocolLayer": 24, "YowGroupsProtocolLayer": 21,
